@@ -11,7 +11,9 @@
 -/
 import JaqVerif.Lemmas.C07Congr
 import JaqVerif.Lemmas.C07Sort
+import JaqVerif.Lemmas.C07Bridge
 import JaqVerif.Lemmas.C07RfcNum
+import JaqVerif.Lemmas.C07Ryu
 
 namespace Jaq.C07
 
@@ -340,6 +342,58 @@ example : SortDom (.obj [(.tstr [98], .num (.int 1)),
     (.num (.float 0x3ff8000000000000), .obj [(.tstr [122], .num (.int 0)), (.tstr [97], .num (.int 0))]),
     (.num (.int 1), .num (.int 2)), (.arr [.num (.int 1), .tstr [120]], .num (.int 3))]) := by
   unfold SortDom; decide
+
+/-- **`SortDom` holds on the domain of C08's order theorems** (read-only use of C08's
+`cmp_tpo`/`numCmp_tpo`: antisymmetry of `Ord`): a value whose numbers are NaN-free, satisfy the
+big-integer/float guard of one mode `m` and convert to finite floats (`numDom m`), whose objects
+satisfy C08's `IndexMap` invariant `WfKeys` (keys pairwise not `Equal`), and whose keys contain no
+objects.  There the shared `Val.cmp` (used by the model of `sort_keys`) and C08's `cmp` coincide
+(`cmp_shared`). -/
+theorem sort_dom_on_c08_domain (m : C08.Mode) (v : Val) (hf : C08.allObjs flatKeys v = true)
+    (hd : C08.allNums (numDom m) v = true) (hk : C08.WfKeys v = true) : SortDom v :=
+  sortDom_of_c08 m v.size v (Nat.le_refl _) hf hd hk
+
+/-- a float key next to string keys: `{(2.5): 0, "k": [1.5], "a": {"b": 1, "a": 2}}` (two number keys
+make `WfKeys` compare numbers, which `decide` cannot evaluate through C08's opaque repair switches) -/
+example :
+    let v : Val := .obj [(.num (.float 0x4004000000000000), .num (.int 0)),
+      (.tstr [107], .arr [.num (.float 0x3ff8000000000000)]),
+      (.tstr [97], .obj [(.tstr [98], .num (.int 1)), (.tstr [97], .num (.int 2))])]
+    C08.allObjs flatKeys v = true ∧ C08.WfKeys v = true := by decide
+
+/-! ### (2) the float printer: the contract as theorems about the executable model `ryuModel`
+
+`ryuModel` (C07/Write.lean) is compared byte for byte with the real `ryu` on every float of every run.
+`Lemmas/C07Ryu.lean`: the grammar half of the contract holds for the model for EVERY bit pattern; the
+value half is proved at the level of the decimal digits `(m, k)` that the model lays out (the digits
+denote `m·10^k`; `decRoundS neg m k` is that number rounded to nearest-even binary64 — what
+`str::parse::<f64>` computes): every candidate the search returns has been checked to round back
+(`ryuAttempt_back`), and stripping trailing zeros does not change the rounded value
+(`roundRat_scale`: `roundRat (n·c) (d·c) = roundRat n d`). -/
+
+/-- **`RyuLit` is a theorem about the model**: for every float, `ryuModel f` is consumed entirely by
+the reader's number lexer, ends in a digit and has a fraction or an exponent. -/
+theorem ryu_model_literal : RyuLit Cfg.model := ryuModel_lit
+
+/-- hence print-then-parse with the model printer needs no hypothesis about the printer -/
+theorem parse_print_val_model (pp : Pp) (hpp : pp.WsIndent) (v : Val) (hg : GoodVal v)
+    (hk : KeysOk (canon Cfg.model pp v)) (w1 w2 : Bytes) (h1 : IsGap w1) (h2 : IsGap w2) :
+    parseSingle (w1 ++ (write Cfg.model pp v ++ w2)) = some (canon Cfg.model pp v) :=
+  parse_print_val Cfg.model ryuModel_lit pp hpp v hg hk w1 w2 h1 h2
+
+/-- **the digits of the model round back to the float, bit for bit** — for every float for which the
+digit search succeeds within 18 significant digits (`ryuFound`, decidable; evaluated for every float
+of every run by the driver op `c07.ryufound`).  PARTIAL: (a) `ryuFound (abs f) = true` for every
+finite non-zero `f` ("17 digits suffice") is not proved; (b) the step from the digits to the text
+(`F64.parseDecChars` of the five layouts of `ryuModel` computes `decRoundS`) is not proved — both are
+covered per run: model = real `ryu` byte for byte, and `str::parse::<f64>(ryu f) = f` on the real code. -/
+theorem ryu_model_digits_roundtrip_partial (f : UInt64) (h : ryuFound (F64.abs f) = true) :
+    decRoundS (F64.signBit f) (shortestDigits (F64.abs f)).1 (shortestDigits (F64.abs f)).2 = f :=
+  ryuDigits_signed_roundtrip_partial f h
+
+/-- rounding a rational to binary64 does not depend on how the fraction is written -/
+theorem roundRat_scale_invariant (neg : Bool) (n d c : Nat) (hc : 0 < c) :
+    F64.roundRat neg (n * c) (d * c) = F64.roundRat neg n d := roundRat_scale neg n d c hc
 
 /-! ### (3) RFC 8259 with an independent rendering of the grammar
 
